@@ -30,7 +30,7 @@ def parseKey (s : String) : Option Key :=
   | _ => none
 
 inductive Op where
-  | new (c : Nat) | set (m : Nat) (k : Key) (v : Int) | get (m : Nat) (k : Key) | has (m : Nat) (k : Key)
+  | new (c : Nat) (impl : String) | set (m : Nat) (k : Key) (v : Int) | get (m : Nat) (k : Key) | has (m : Nat) (k : Key)
   | del (m : Nat) (k : Key) | len (m : Nat) | setcap (m c : Nat) | grow (m n : Nat) | clone (m : Nat)
   | clonecap (m c : Nat) | cat (a b : Nat) | copy (t s : Nat) | eq (a b : Nat) | items (m : Nat)
   | add (m : Nat) (k : Key) | union (a b : Nat) | inter (a b : Nat) | seq (a b : Nat)
@@ -42,7 +42,7 @@ def parseOp (s : String) : Option Op :=
   | [] => none
   | k :: args =>
     match stripTag k, args with
-    | "new", [c] => do pure (.new (← parseNat? c))
+    | "new", [c] => do pure (.new (← parseNat? c) (((k.splitOn ":").drop 1).headD "m"))
     | "set", [m, k, v] => do pure (.set (← parseNat? m) (← parseKey k) (← parseInt? v))
     | "get", [m, k] => do pure (.get (← parseNat? m) (← parseKey k))
     | "has", [m, k] => do pure (.has (← parseNat? m) (← parseKey k))
@@ -83,7 +83,7 @@ def showTbl (layout : Bool) (t : T) : String :=
 
 /-- the state-changing operations are those of the model's `mstep` -/
 def toModelOp : Op → Option (Elk.HashMap.Op Key Int)
-  | .new c => some (.new c)
+  | .new c _ => some (.new c)
   | .set m k v => some (.set m k v)
   | .del m k => some (.del m k)
   | .setcap m c => some (.setcap m c)
@@ -114,7 +114,7 @@ def step (layout : Bool) (objs : List T) (op : Op) : Option (List T × String) :
           match containsKey khash keqv t k with
           | .ok b => pure s!"b:{!b}"
           | .panic => pure "panic"
-      | .new _ | .clone _ | .clonecap _ _ | .cat _ _ | .union _ _ | .inter _ _ => some s!"o:{objs.length}"
+      | .new _ _ | .clone _ | .clonecap _ _ | .cat _ _ | .union _ _ | .inter _ _ => some s!"o:{objs.length}"
       | _ => some "-"
     match mstep khash keqv 0 objs mop, ans with
     | some (.ok objs'), some a => some (objs', a)
@@ -167,19 +167,37 @@ def showChanges (layout : Bool) (before after : List T) : String :=
       if changed then some (toString id ++ "=" ++ s) else none
   joinWith "&" parts
 
-def runShow (layout : Bool) : List T → List Op → List String → Option (List String)
-  | _, [], acc => some acc.reverse
-  | objs, op :: ops, acc =>
+def isRec (t : String) : Bool := t == "r" || t == "nr"
+
+/-- implementation tag of the object an operation creates (a map is never `==` to a record; a Go-map backed
+record `+` a map is a map, every other record `+` is a record) -/
+def newKind (kinds : List String) : Op → Option String
+  | .new _ impl => some impl
+  | .clone m | .clonecap m _ | .inter m _ => kinds[m]?
+  | .cat a b | .union a b => do
+      let ia ← kinds[a]?
+      let ib ← kinds[b]?
+      pure (if ia == ib then ia else if !isRec ia || (ia == "nr" && !isRec ib) then "m" else "r")
+  | _ => none
+
+def runShow (layout : Bool) : List T → List String → List Op → List String → Option (List String)
+  | _, _, [], acc => some acc.reverse
+  | objs, kinds, op :: ops, acc =>
     match step layout objs op with
     | none => none
-    | some (objs', a) => runShow layout objs' ops ((a ++ "|" ++ showChanges layout objs objs') :: acc)
+    | some (objs', a) =>
+      let a := match op with
+        | .eq x y => if (kinds[x]?.map isRec) != (kinds[y]?.map isRec) then "b:false" else a
+        | _ => a
+      let kinds' := if objs'.length > objs.length then kinds ++ [(newKind kinds op).getD "m"] else kinds
+      runShow layout objs' kinds' ops ((a ++ "|" ++ showChanges layout objs objs') :: acc)
 
 def handle : List String → String
   | [flags, ops] =>
     match optAll ((splitOnNE ops ";").map parseOp) with
     | none => "bad-op"
     | some ops =>
-      match runShow (flags.contains 'l') [] ops [] with
+      match runShow (flags.contains 'l') [] [] ops [] with
       | some outs => "ok " ++ joinWith " ; " outs
       | none => "bad-state"
   | _ => "bad-op"
